@@ -215,7 +215,7 @@ func genC13(out *vh.Out, tier string, outPath string) {
 		}
 		emit("anytop", nil, t)
 	}
-	out.Put(map[string]any{"kind": "info", "dropped": dropped, "tree_cases": k})
+	out.Put(map[string]any{"kind": "info", "dropped": dropped, "tree_cases": k, "endpoint_control": endpointControl()})
 	// 6. raw-bytes stream, in a guarded child process (robustness testing in support)
 	rawStream(out, tier, outPath, rng)
 }
